@@ -710,6 +710,35 @@ def check_C04(ctx: Ctx) -> None:
             ctx.fail("parse_jelly_to_graph differs from the stream's denotation", dict(bytes=b.hex(), cfg=s["cfg"]))
     ctx.corr("PARSE", reqs, resp)
     ctx.extra["reference_encoder_choices"] = dict(stats)
+    # 2b. the rdflib integration on RDF 1.1 reference streams: flat term for term and in order; grouped / to-graph as sets
+    import rimpl
+    reqs, resp = [], []
+    for i in range(ctx.n(100, 1000)):
+        g = gen.G(r, star=False, generalized=False, case_langs=False, n_prefixes=r.choice([2, 4, 8]), n_names=r.choice([3, 8, 16]))
+        g.bnode = lambda: BlankNode(r.choice(["b0", "b1", "n1"]))
+        s = refenc.build_valid_stream(r, g)
+        b = s["bytes"]
+        ctx.case(("rdflib", b.hex()), len(s["events"]) >= 2)
+        ctx.dist["rdflib_streams"] += 1
+        rflat = rimpl.run_par_flat(False, "seek", b)
+        reqs.append(f"par flat 0 0 seek {b.hex()}")
+        resp.append(rflat)
+        if rflat != s["events_text"] + " end":
+            ctx.fail("rdflib parse_jelly_flat differs from the stream's denotation",
+                     dict(bytes=b.hex(), cfg=s["cfg"], got=rflat[:2000], want=s["events_text"][:2000]))
+            continue
+        want = sorted(set(e[1:] for e in s["events_text"].split(" ") if e.startswith("S")))
+        if any(e.split(",")[3:] == ["I"] for e in want):
+            continue  # rdflib cannot name a graph by the empty IRI
+        sinks, err = rimpl.run_par_grouped(False, "seek", b)
+        store, err2 = rimpl.run_par_graph("seek", b)
+        if err or err2:
+            ctx.fail(f"rdflib grouped / to-graph parser raised on a valid stream: {err or err2}", dict(bytes=b.hex(), cfg=s["cfg"]))
+        elif sorted(set(x for sk in sinks for x in sk)) != want or rimpl.store_quads(store) != want:
+            ctx.fail("rdflib grouped / to-graph parsers differ from the stream's denotation", dict(bytes=b.hex(), cfg=s["cfg"]))
+        elif s["delimited"] and len(sinks) != len(s["frames"]):
+            ctx.fail(f"rdflib grouped parser yields {len(sinks)} graphs/datasets for {len(s['frames'])} frames", dict(bytes=b.hex()))
+    ctx.corr("PARSE-rdflib", reqs, resp)
     # the same streams consumed by several parsers that are alive at the same time (generators advanced in turns)
     from pyjelly.integrations.generic.parse import parse_jelly_flat
     for k in range(0, len(streams) - 2, 3):
@@ -739,7 +768,10 @@ def check_C16(ctx: Ctx) -> None:
     reqs_spec, cases = [], []
     per_class = __import__("collections").Counter()
     for i in range(ctx.n(120, 1200)):
-        g = gen.G(r)
+        safe = i % 3 == 0  # RDF 1.1 content with rdflib-safe labels: also goes through the rdflib integration
+        g = gen.G(r, star=False, generalized=False, case_langs=False) if safe else gen.G(r)
+        if safe:
+            g.bnode = lambda: BlankNode(r.choice(["b0", "b1", "n1"]))
         s = refenc.build_valid_stream(r, g, n_stmts=r.randint(2, 8))
         for kind in refenc.VIOLATIONS:
             if ctx.quick() and r.random() < 0.5:
@@ -752,7 +784,7 @@ def check_C16(ctx: Ctx) -> None:
             # keep the first frame non-empty and put the offending row at a random frame position
             frames = refenc.cut_frames(r, rows, repeat_options_prob=0.0, allow_leading_empty=False) if rows and rows[0].WhichOneof("row") == "options" and len(rows) > 1 else [jelly.RdfStreamFrame(rows=rows)]
             b = refenc.frames_to_bytes(frames, delimited)
-            cases.append(dict(kind=kind, pos=pos, bytes=b, valid=s, rows=rows))
+            cases.append(dict(kind=kind, pos=pos, bytes=b, valid=s, rows=rows, safe=safe))
             reqs_spec.append(spec_line(b, True))
     got = __import__("common").run_driver(reqs_spec)
     reqs, resp = [], []
@@ -767,12 +799,18 @@ def check_C16(ctx: Ctx) -> None:
         ctx.dist["referee:" + verdict] += 1
         b = c["bytes"]
         ctx.case((c["kind"], b.hex()), True, sample=dict(kind=c["kind"], referee=verdict, bytes=b.hex()[:200]))
-        for integ in ("generic",):
-            line_impl = impl.run_par("flat", False, "seek", b)
-            reqs.append(f"par flat 0 1 seek {b.hex()}")
+        for integ in (("generic", "rdflib") if c["safe"] else ("generic",)):
+            if integ == "generic":
+                line_impl = impl.run_par("flat", False, "seek", b)
+                reqs.append(f"par flat 0 1 seek {b.hex()}")
+            else:
+                import rimpl
+                line_impl = rimpl.run_par_flat(False, "seek", b)
+                reqs.append(f"par flat 0 0 seek {b.hex()}")
+            ctx.dist["integration:" + integ] += 1
             resp.append(line_impl)
             if line_impl.endswith(" end"):
-                ctx.fail(f"spec-violating stream accepted ({c['kind']}, referee: {verdict})",
+                ctx.fail(f"spec-violating stream accepted by the {integ} integration ({c['kind']}, referee: {verdict})",
                          dict(bytes=b.hex(), kind=c["kind"], referee=line[:500], got=line_impl[:1500]))
             else:
                 # what was yielded before the exception must be the denotation of the valid prefix
@@ -1174,6 +1212,36 @@ def check_C07(ctx: Ctx) -> None:
         if [stmt_text(x) for x in got] != [stmt_text(x) for x in want]:
             ctx.fail("grouped serialization with a shared stream does not round-trip", dict(request=reqs[-1]))
     ctx.corr("SER", reqs, resp)
+    # (c, rdflib) the same through the rdflib integration: Graphs / Datasets sharing one stream, one frame each
+    from pyjelly.integrations.rdflib import parse as rparse, serialize as rser
+    from pyjelly.serialize.streams import SerializerOptions as _SO
+    for _ in range(ctx.n(40, 400)):
+        data_cls = r.choice("TQ")
+        o = Opts(fs=r.choice([1, 3, 250]), lt=0, gen=False, star=False, delim=True, pn=r.choice([16, 128]), pp=r.choice([0, 4]), pd=4)
+        stores = [_to_store(_rdf11_statements(r, data_cls, o, r.randint(0, 6)), data_cls) for _ in range(r.randint(1, 4))]
+        if not len(stores[0]):
+            continue
+        so = o.real()
+        lt = r.choice([3, 13]) if data_cls == "T" else r.choice([4, 14, 114])
+        if r.random() < 0.25:
+            from pyjelly.serialize import flows as _flows
+            so = _SO(flow=(_flows.GraphsFrameFlow() if data_cls == "T" else _flows.DatasetsFrameFlow()), params=so.params, lookup_preset=so.lookup_preset)
+        else:
+            so = _SO(logical_type=lt, frame_size=so.frame_size, params=so.params, lookup_preset=so.lookup_preset)
+        ctx.case(("grouped-ser-rdflib", data_cls, o.token(), tuple(len(st) for st in stores)), True)
+        ctx.dist["grouped_serializations_rdflib"] += 1
+        try:
+            frames = list(rser.grouped_stream_to_frames((st for st in stores), options=so))
+            b = impl.frames_bytes(frames, True)
+            back = [rimpl.store_quads(g) for g in rparse.parse_jelly_grouped(io.BytesIO(b))]
+        except Exception as e:  # noqa: BLE001
+            ctx.fail(f"rdflib grouped serialization / parse raised {type(e).__name__}: {e}", dict(opts=o.describe()))
+            continue
+        nonempty = [st for st in stores if len(st)]
+        if len(frames) != len(nonempty):
+            ctx.fail(f"rdflib: {len(frames)} frames written for {len(nonempty)} non-empty graphs/datasets", dict(opts=o.describe(), sizes=[len(st) for st in stores]))
+        elif [sorted(set(_norm_text(t) for t in x)) for x in back] != [sorted(set(_norm_text(t) for t in rimpl.store_quads(st))) for st in nonempty]:
+            ctx.fail("rdflib grouped serialization with a shared stream does not give the graphs/datasets back one per frame", dict(opts=o.describe()))
 
 
 # ---------------------------------------------------------------------------------------------
@@ -1305,24 +1373,25 @@ def _c08_positioned_and_plugin(ctx: Ctx, r) -> None:
     from pyjelly.options import StreamParameters
     from pyjelly.serialize.streams import QuadStream, SerializerOptions, TripleStream
 
+    plug_reqs, plug_resp = [], []
     for i in range(ctx.n(16, 160)):
         cls = r.choice("TQ")
         o = Opts(fs=250, lt=0, gen=False, star=False, name="n" * r.choice([0, 1, 2, 3, 9]), pn=16, pp=8, pd=8)
         stmts = _rdf11_statements(r, cls, o, r.randint(1, 4))
         store = _to_store(stmts, cls)
         outs = {}
+        import copy
+
+        import rimpl
         for delim in (True, False):
             o.delim = delim
             for how in ("options", "stream"):
-                so = o.real()
-                try:
-                    if how == "options":
-                        b = store.serialize(format="jelly", encoding="jelly", options=so)
-                    else:
-                        st = (TripleStream if cls == "T" else QuadStream).for_rdflib(so)
-                        b = store.serialize(format="jelly", encoding="jelly", stream=st)
-                except Exception as e:  # noqa: BLE001
-                    ctx.fail(f"rdflib plugin raised {type(e).__name__} writing a {'delimited' if delim else 'non-delimited'} stream via {how}=", dict(opts=o.describe()))
+                oo = copy.copy(o)
+                req, line, b = rimpl.run_plug(store, oo if how == "options" else None, (cls, oo) if how == "stream" else None)
+                plug_reqs.append(req)
+                plug_resp.append(line)
+                if not line.endswith(" end") or b is None:
+                    ctx.fail(f"rdflib plugin raised ({line[-40:]}) writing a {'delimited' if delim else 'non-delimited'} stream via {how}=", dict(opts=o.describe()))
                     continue
                 outs[(delim, how)] = b
                 ctx.dist[f"plugin:{how}:{'delimited' if delim else 'single'}"] += 1
@@ -1338,6 +1407,7 @@ def _c08_positioned_and_plugin(ctx: Ctx, r) -> None:
         pa, pb = outs.get((True, "options")), outs.get((False, "options"))
         if pa is not None and pb is not None and impl.run_par("flat", False, "seek", pa) != impl.run_par("flat", False, "seek", pb):
             ctx.fail("rdflib plugin output in the two modes parses differently", dict(delimited=pa.hex(), single=pb.hex()))
+    ctx.corr("PLUG", plug_reqs, plug_resp)
 
 
 def _positioned_parses(b: bytes, tmpdir: str, r, k: int = 4):
@@ -1498,6 +1568,40 @@ def check_C10(ctx: Ctx) -> None:
         if len(ks) == len(b) + 1:
             ctx.dist["streams_cut_exhaustively"] += 1
     ctx.corr("IO", reqs, resp)
+    # the rdflib integration on the same kind of cuts (RDF 1.1 reference streams): prefix, and delivered frames delivered
+    import rimpl
+    reqs, resp = [], []
+    for i in range(ctx.n(20, 200)):
+        g = gen.G(r, star=False, generalized=False, case_langs=False)
+        g.bnode = lambda: BlankNode(r.choice(["b0", "b1", "n1"]))
+        s = None
+        while s is None or not s["delimited"]:
+            s = refenc.build_valid_stream(r, g, n_stmts=r.randint(1, 8))
+        b = s["bytes"]
+        full = s["events_text"].split(" ") if s["events_text"] != "_" else []
+        ends, pos, events_upto, nev = [], 0, {}, 0
+        for f in s["frames"]:
+            pos += len(refenc.frames_to_bytes([f], True))
+            ends.append(pos)
+            nev += sum(1 for row in f.rows if row.WhichOneof("row") in ("triple", "quad", "namespace"))
+            events_upto[pos] = nev
+        ctx.case(("rdflib", b.hex()), True)
+        ks = sorted(set(ends) | set(e - 1 for e in ends) | set(e + 1 for e in ends if e + 1 <= len(b)) | set(r.sample(range(len(b) + 1), min(len(b) + 1, 25))))
+        for k in ks:
+            line = rimpl.run_par_flat(False, "seek", b[:k])
+            ctx.dist["rdflib_cuts"] += 1
+            body, _, tail = line.rpartition(" ")
+            got = body.split(" ") if body != "_" else []
+            if got != full[: len(got)]:
+                ctx.fail("rdflib: truncated stream yields something that is not a prefix of the original",
+                         dict(bytes=b.hex(), cut=k, got=body[:1000], want=s["events_text"][:1000]))
+            done = max([e for e in ends if e <= k], default=0)
+            if done >= 3 and len(got) < events_upto[done]:
+                ctx.fail(f"rdflib: statements of fully delivered frames were lost: {len(got)} yielded, {events_upto[done]} delivered ({tail})",
+                         dict(bytes=b.hex(), cut=k))
+            reqs.append(f"par flat 0 0 seek {b[:k].hex()}" if k else "par flat 0 0 seek")
+            resp.append(line)
+    ctx.corr("IO-rdflib", reqs, resp)
 
 
 # ---------------------------------------------------------------------------------------------
@@ -1701,7 +1805,16 @@ def _real_trace(cls: str, o: Opts, stmts, integration: str = "generic"):
     """pull/yield trace of stream_frames(stream, generator) on the real code."""
     from pyjelly.integrations.generic import serialize as gser
 
-    stream, _ = impl.make_stream(cls, o)
+    if integration == "rdflib":
+        import rimpl
+        from pyjelly.integrations.rdflib import parse as rparse, serialize as gser  # noqa: F811
+
+        stream, _ = rimpl.make_stream(cls, o)
+        stmts = [tuple(rimpl.to_rdflib(t) for t in st) for st in stmts]
+        if cls != "T":
+            stmts = [rparse.Quad(*st) for st in stmts]
+    else:
+        stream, _ = impl.make_stream(cls, o)
     tr: list[str] = []
     stmt_rows_out = [0]
     pulls = [0]
@@ -1739,34 +1852,45 @@ def check_C11(ctx: Ctx) -> None:
         cls = r.choice("TTQQG")
         o = rand_opts(r, cls, delimited=True, lt=r.choice([0, {"T": 1, "Q": 2, "G": 2}[cls]]))
         o.fs = r.choice([1, 2, 3, 5, 7, 250])
-        stmts = gen_fitting(r, cls, o, r.randint(0, 16))
-        line, tr, lookahead, stream = _real_trace(cls, o, stmts)
-        reqs.append(f"trace {cls} {o.token()} {stmts_text(stmts)}")
-        resp.append(line)
+        integ = "rdflib" if i % 4 == 3 else "generic"
+        if integ == "rdflib":
+            o.gen = o.star = False
+            stmts = _rdf11_statements(r, cls, o, r.randint(0, 16))
+        else:
+            stmts = gen_fitting(r, cls, o, r.randint(0, 16))
+        line, tr, lookahead, stream = _real_trace(cls, o, stmts, integ)
+        ctx.dist["integration:" + integ] += 1
+        rdflib_graphs = integ == "rdflib" and cls == "G"
+        if not rdflib_graphs:
+            # (the rdflib GraphStream fed from a generator first materialises ALL quads into a Dataset, regrouped and
+            # de-duplicated: outside the trace model, and the subject of the known finding below)
+            reqs.append(f"trace {cls} {o.token()} {stmts_text(stmts)}")
+            resp.append(line)
         ctx.case((cls, o.token(), stmts_text(stmts)), len(stmts) >= 2, sample=dict(cls=cls, frame_size=o.fs, trace=line[:200]))
         ctx.dist[f"cls:{cls}"] += 1
         if not line.endswith(" end"):
             continue
         fs = stream.flow.frame_size
         if fs != o.fs:
-            ctx.fail(f"the flow uses frame size {fs}, the caller asked for {o.fs}", dict(request=reqs[-1]))
+            ctx.fail(f"the flow uses frame size {fs}, the caller asked for {o.fs}", dict(opts=o.describe()))
+        req_text = f"trace[{integ}] {cls} {o.token()} {stmts_text(stmts)}"
         # (i) from the second statement on fewer than frame_size rows are pending at every pull
         for ev in tr:
             if ev.startswith("p"):
                 idx, pend = map(int, ev[1:].split(":"))
                 if idx >= 2 and pend >= o.fs:
-                    ctx.fail(f"{pend} rows pending at pull {idx} with frame_size {o.fs}", dict(request=reqs[-1], trace=line),
-                             known="C11-graphs-lookahead" if cls == "G" else None)
+                    ctx.fail(f"{pend} rows pending at pull {idx} with frame_size {o.fs}", dict(request=req_text, trace=line),
+                             known=("C11-rdflib-graphs-materialised" if rdflib_graphs else "C11-graphs-lookahead") if cls == "G" else None)
                     break
         # (ii) at most one frame between two pulls (each frame is handed out at once)
         body = tr[: max(j for j, ev in enumerate(tr) if ev.startswith("p"))] if any(ev.startswith("p") for ev in tr) else []
         if cls != "G" and any(a.startswith("y") and b.startswith("y") for a, b in zip(body, body[1:])):
-            ctx.fail("two frames between consecutive pulls", dict(request=reqs[-1], trace=line))
+            ctx.fail("two frames between consecutive pulls", dict(request=req_text, trace=line))
         # (iii) input consumed no further than the statement that completed the frame
         if any(x > 0 for x in lookahead):
             ctx.fail("input consumed beyond the statement that completed the frame",
-                     dict(request=reqs[-1], trace=line, lookahead=lookahead[:10]),
-                     known="C11-graphs-lookahead" if cls == "G" else None)
+                     dict(request=req_text, trace=line, lookahead=lookahead[:10]),
+                     known=("C11-rdflib-graphs-materialised" if rdflib_graphs else "C11-graphs-lookahead") if cls == "G" else None)
     ctx.corr("SERSTEP", reqs, resp)
     # parse side: the source stalls forever after frame j
     for i in range(ctx.n(80, 800)):
@@ -1997,6 +2121,7 @@ def check_C12(ctx: Ctx) -> None:
         if bad:
             ctx.fail("serialization in a thread (1 µs switch interval) differs from serialization alone", dict(thread=t, bad_rounds=bad, rounds=rounds))
     _c12_rdflib_parsers(ctx, r)
+    _c12_rdflib_serializers(ctx, r)
     # (4) fresh processes with different hash seeds
     digest = hashlib.sha256(b"".join(len(b).to_bytes(4, "big") + b for b in alone)).hexdigest()
     code = ("import sys; sys.path.insert(0, %r); import props, hashlib; "
@@ -2069,6 +2194,55 @@ def _c12_rdflib_parsers(ctx: Ctx, r) -> None:
                 if got != w:
                     ctx.fail(f"rdflib {mode} parser of a {cls} stream is affected by another parser active at the same time",
                              dict(bytes=[b.hex() for _, b in files], index=k, got=str(got)[:400], want=str(w)[:400]))
+
+
+def _c12_rdflib_serializers(ctx: Ctx, r) -> None:
+    """Two to four rdflib serializers (and a parser) alive at once, their generators stepped in a random interleaving,
+    some sharing ONE options object: each writes the bytes it writes alone."""
+    import rimpl
+    from pyjelly.integrations.rdflib import parse as rparse, serialize as rser
+
+    for trial in range(ctx.n(15, 150)):
+        works = []
+        shared = None
+        for j in range(r.randint(2, 4)):
+            cls = r.choice("TQ")
+            o = Opts(fs=r.choice([1, 2, 5, 250]), lt=0, gen=False, star=False, delim=True, ns=False, pn=r.choice([16, 128]), pp=r.choice([0, 4]), pd=4)
+            stmts = _rdf11_statements(r, cls, o, r.randint(2, 8))
+            data = [tuple(rimpl.to_rdflib(t) for t in st) for st in stmts]
+            if cls != "T":
+                data = [rparse.Quad(*x) for x in data]
+            try:
+                if shared is not None and r.random() < 0.4:
+                    so = shared  # the same SerializerOptions object handed to two streams
+                else:
+                    so = o.real()
+                    shared = so
+                alone_stream = rimpl.STREAMS[cls].for_rdflib(options=so)
+                alone = [f.SerializeToString() for f in rser.stream_frames(alone_stream, (x for x in data))]
+                works.append((cls, so, data, alone))
+            except Exception as e:  # noqa: BLE001
+                ctx.fail(f"rdflib serializer raised {type(e).__name__} on RDF 1.1 data", dict(opts=o.describe()))
+        gens, outs = {}, {}
+        for k, (cls, so, data, alone) in enumerate(works):
+            gens[k] = rser.stream_frames(rimpl.STREAMS[cls].for_rdflib(options=so), (x for x in data))
+            outs[k] = []
+        live = list(gens)
+        while live:
+            k = r.choice(live)
+            try:
+                outs[k].append(next(gens[k]).SerializeToString())
+            except StopIteration:
+                live.remove(k)
+            except Exception as e:  # noqa: BLE001
+                outs[k].append(b"!" + type(e).__name__.encode())
+                live.remove(k)
+        ctx.case(("rdflib-serializers", trial, tuple(len(w[2]) for w in works)), True)
+        ctx.dist["interleaved_rdflib_serializers"] += len(works)
+        for k, (cls, so, data, alone) in enumerate(works):
+            if outs[k] != alone:
+                ctx.fail("rdflib serializer interleaved with other serializers writes different frames than alone",
+                         dict(index=k, cls=cls, alone=[x.hex() for x in alone][:4], interleaved=[x.hex() for x in outs[k]][:4]))
 
 
 def _c12_static_scan() -> dict:
@@ -2281,7 +2455,14 @@ def check_C20(ctx: Ctx) -> None:
         cls = r.choice("TQG")
         pd = r.choice([0, 4, 4])
         o = Opts(fs=r.choice([1, 2, 5, 250]), lt=0, gen=True, star=True, delim=True, pn=16, pp=r.choice([0, 4]), pd=pd)
-        g = gen.G(r, typed=pd != 0, n_prefixes=3, n_names=5)
+        integ = "rdflib" if i % 4 == 3 else "generic"
+        if integ == "rdflib":
+            # the rdflib serializer driven statement by statement with rdflib terms (RDF 1.1 content; no quoted triples)
+            o.gen = o.star = False
+            g = gen.G(r, typed=pd != 0, n_prefixes=3, n_names=5, star=False, generalized=False, case_langs=False)
+            g.bnode = lambda: BlankNode(r.choice(["b0", "b1", "n1"]))
+        else:
+            g = gen.G(r, typed=pd != 0, n_prefixes=3, n_names=5)
         n = r.randint(2, 8)
         ops, accepted = [("enroll",)], []
         prev = None
@@ -2291,11 +2472,13 @@ def check_C20(ctx: Ctx) -> None:
             cause = None
             if bad:
                 cause = r.choice(["unsupported", "typed_disabled", "short"]) if pd == 0 else r.choice(["unsupported", "short", "nested"])
+                if integ == "rdflib" and cause == "nested":
+                    cause = "unsupported"
                 slot = r.randrange(len(st))
                 if cause == "unsupported":
                     st[slot] = UNSUPPORTED
                 elif cause == "typed_disabled":
-                    slot = r.randrange(3)
+                    slot = 2 if integ == "rdflib" else r.randrange(3)
                     st[slot] = Literal("1", datatype="http://dt.example/t1")
                 elif cause == "nested":
                     slot = r.randrange(3)
@@ -2329,7 +2512,8 @@ def check_C20(ctx: Ctx) -> None:
             metas_acc = acc
             accepted.append(metas_acc)
         ops.append(("flush",))
-        line = impl.run_step(cls, o, ops)
+        line = impl.run_step(cls, o, ops, integration=integ)
+        ctx.dist["integration:" + integ] += 1
         reqs.append(f"step {cls} {o.token()} " + " ".join(impl.step_op_token(op) for op in ops))
         resp.append(line)
         metas.append((cls, o, ops, accepted))
@@ -2679,6 +2863,7 @@ def check_C02(ctx: Ctx) -> None:
             if got != want:
                 ctx.fail(f"rdflib round trip ({how}) changed the data", dict(request=req, got=got[:20], want=want[:20]))
     ctx.corr("SER-rdflib", reqs, resp)
+    _c02_entry_points(ctx, r)
     # non-canonical lexical forms survive (repaired defect: normalize=False)
     from rdflib import XSD, Literal as RL, URIRef
     g = Graph()
@@ -2696,6 +2881,109 @@ def check_C02(ctx: Ctx) -> None:
     ctx.case("noncanonical-lexical", True)
     if sorted(_norm_text(t) for t in rimpl.store_quads(back)) != sorted(_norm_text(t) for t in rimpl.store_quads(g)):
         ctx.fail("non-canonical lexical forms are rewritten by the rdflib round trip", dict(got=rimpl.store_quads(back)))
+
+
+def _c02_entry_points(ctx: Ctx, r) -> None:
+    """The remaining ways a Graph / Dataset gets written and read back with rdflib: the plugin with everything guessed,
+    namespace declarations switched on, quads fed as a generator into a GraphStream / QuadStream, flat_stream_to_file and
+    grouped_stream_to_file, read back with parse_jelly_grouped / parse_jelly_flat / Graph.parse."""
+    import rimpl
+    from rdflib import Dataset, Graph, URIRef
+
+    from pyjelly.integrations.rdflib import parse as rparse, serialize as rser
+
+    reqs, resp = [], []
+    plug_reqs, plug_resp = [], []
+    for i in range(ctx.n(120, 1200)):
+        data_cls = r.choice("TQ")
+        o = Opts(fs=r.choice([1, 3, 250]), lt=0, gen=False, star=False, delim=True, ns=r.random() < 0.5, pn=r.choice([16, 128]), pp=r.choice([0, 4, 16]), pd=8)
+        stmts = _rdf11_statements(r, data_cls, o, r.randint(1, 10))
+        if not stmts:
+            continue
+        store = _to_store(stmts, data_cls)
+        for j in range(r.randint(0, 2)):
+            store.bind(f"p{j}", URIRef(r.choice(["http://ns.example/a#", "http://ns.example/b/", "urn:x:"])), override=True, replace=True)
+        want = sorted(set(_norm_text(t) for t in rimpl.store_quads(store)))
+        how = r.choice(["plugin-defaults", "ns", "generator", "flat_to_file", "grouped_to_file"])
+        ctx.case(("entry", how, data_cls, o.token(), tuple(want)), len(want) >= 2)
+        ctx.dist["entry:" + how] += 1
+        try:
+            if how == "plugin-defaults":
+                req, line, b = rimpl.run_plug(store, None, None)
+                plug_reqs.append(req)
+                plug_resp.append(line)
+                if not line.endswith(" end"):
+                    raise RuntimeError(line[-60:])
+                back = Graph() if data_cls == "T" else Dataset()
+                back.parse(data=b, format="jelly")
+                got = rimpl.store_quads(back)
+            elif how == "ns":
+                cls = "T" if data_cls == "T" else r.choice("QG")
+                req, line, b = rimpl.run_serr(cls, o, store)
+                reqs.append(req)
+                resp.append(line)
+                if not (line.startswith("ok ") and line.endswith(" end")):
+                    continue
+                back, err = rimpl.run_par_graph("seek", b)
+                if err:
+                    raise RuntimeError(err)
+                got = rimpl.store_quads(back)
+            elif how == "generator":
+                cls = "T" if data_cls == "T" else r.choice("QG")
+                data = [tuple(rimpl.to_rdflib(t) for t in st) for st in stmts]
+                o.ns = False
+                req, line, b = rimpl.run_serr(cls, o, data)
+                reqs.append(req)
+                resp.append(line)
+                if not (line.startswith("ok ") and line.endswith(" end")):
+                    continue
+                got = [e[1:] for e in rimpl.run_par_flat(False, "seek", b).split(" ")[:-1] if e.startswith("S")]
+                if data_cls == "T":
+                    got = [g for g in got]
+            elif how == "flat_to_file":
+                out = io.BytesIO()
+                data = (tuple(rimpl.to_rdflib(t) for t in st) for st in stmts)
+                if data_cls == "Q":
+                    data = (rparse.Quad(*x) for x in data)
+                use_opts = r.random() < 0.5
+                o.ns = False
+                rdata = [tuple(rimpl.to_rdflib(t) for t in st) for st in stmts]
+                err = None
+                try:
+                    rser.flat_stream_to_file(data, out, o.real() if use_opts else None)
+                except Exception as e:  # noqa: BLE001
+                    err = e
+                plug_reqs.append(f"rflat {o.token() if use_opts else '-'} " + "/".join(rimpl.rdflib_stmt_text(t) for t in rdata))
+                plug_resp.append(f"ok {out.getvalue().hex()} " + ("end" if err is None else "!" + type(err).__name__))
+                if err is not None:
+                    raise err
+                back = Graph() if data_cls == "T" else Dataset()
+                back.parse(data=out.getvalue(), format="jelly")
+                got = rimpl.store_quads(back)
+            else:
+                # several stores through one stream; read back one per frame and as a whole
+                k = r.randint(1, 3)
+                stores = [store] + [_to_store(_rdf11_statements(r, data_cls, o, r.randint(1, 5)), data_cls) for _ in range(k - 1)]
+                stores = [st for st in stores if len(st)]
+                so = o.real()
+                so = type(so)(flow=so.flow, frame_size=so.frame_size, logical_type=3 if data_cls == "T" else 4, params=so.params, lookup_preset=so.lookup_preset)
+                out = io.BytesIO()
+                rser.grouped_stream_to_file((st for st in stores), out, options=so)
+                sinks = [rimpl.store_quads(g) for g in rparse.parse_jelly_grouped(io.BytesIO(out.getvalue()))]
+                want_each = [sorted(set(_norm_text(t) for t in rimpl.store_quads(st))) for st in stores]
+                got_each = [sorted(set(_norm_text(t) for t in sk)) for sk in sinks]
+                if got_each != want_each:
+                    ctx.fail("rdflib grouped_stream_to_file -> parse_jelly_grouped does not give back the graphs/datasets one by one",
+                             dict(opts=o.describe(), got=str(got_each)[:800], want=str(want_each)[:800]))
+                continue
+        except Exception as e:  # noqa: BLE001
+            ctx.fail(f"rdflib round trip ({how}) raised {type(e).__name__}: {e}", dict(opts=o.describe(), statements=want[:6]))
+            continue
+        got = sorted(set(_norm_text(t) for t in got))
+        if got != want:
+            ctx.fail(f"rdflib round trip ({how}) changed the data", dict(opts=o.describe(), got=got[:20], want=want[:20]))
+    ctx.corr("SER-rdflib", reqs, resp)
+    ctx.corr("PLUG", plug_reqs, plug_resp)
 
 
 def check_C14(ctx: Ctx) -> None:
